@@ -4,6 +4,7 @@ import Pyunicorn.Lemmas.GeoRound
 import Pyunicorn.Lemmas.GeoRoundAng
 import Pyunicorn.Lemmas.GeoRoundNN
 import Pyunicorn.Lemmas.GeoHist
+import Pyunicorn.Lemmas.GeoRegion
 import Pyunicorn.Generated.StructC12
 import Pyunicorn.Model.GeoArea
 /-!
@@ -2455,5 +2456,289 @@ theorem src_rGridNodeNumber (rnd : ℝ → ℝ) (x : Nat → Nat → ℝ) (q : N
        simp only [mul_comm, add_comm])
 
 end SourceTie
+
+/-! ## Round 5e — `GeoGrid.region_indices`
+
+The source reshapes the region into `(lon, lat)` pairs, adds 360 to the negative polygon
+longitudes if all grid longitudes are `≥ 0`, and asks matplotlib whether each node `(lon_i, lat_i)`
+lies in the polygon (model: `Model/GeoRegion.lean`).  For the lat/lon box `boxRegion x0 y0 x1 y1`
+the mask is `X0 ≤ lon_i ≤ X1 ∧ y0 < lat_i ≤ y1` with `X` the corner after the remapping. -/
+section RegionIndices
+set_option linter.unusedSectionVars false
+variable {α : Type} [Field α] [LinearOrder α] [IsStrictOrderedRing α]
+
+/-- the box corner after the conditional remapping of `region_indices` -/
+def boxCorner (lon : List α) (x : α) : α := if lonNonneg lon then remapLon x else x
+
+private theorem getD_lt {β : Type} (l : List β) (d : β) (i : Nat) (h : i < l.length) :
+    l.getD i d = l[i] := by
+  simp [List.getD_eq_getElem?_getD, h]
+
+/-- **one entry per node**: whenever `region_indices` returns, the mask has as many entries as the
+grid has nodes (`lat` and `lon` of a `GeoGrid` have the same length) -/
+theorem regionIndices_length (lat lon region : List α) (m : List Bool)
+    (hl : lat.length = lon.length) (h : regionIndices lat lon region = some m) :
+    m.length = lon.length := by
+  unfold regionIndices at h
+  split at h
+  · exact absurd h (by simp)
+  · simp only [Option.some.injEq] at h
+    subst h
+    simp [hl]
+
+/-- `region_indices` raises exactly for an empty grid (`min()` of nothing) or an odd number of
+region entries (`reshape`) -/
+theorem regionIndices_eq_none_iff (lat lon region : List α) :
+    regionIndices lat lon region = none ↔ lon = [] ∨ region.length % 2 = 1 := by
+  unfold regionIndices
+  split
+  · rename_i h
+    simp only [true_iff]
+    rcases Bool.or_eq_true _ _ ▸ h with h | h
+    · left; simpa using h
+    · right
+      have : region.length % 2 ≠ 0 := by simpa using h
+      omega
+  · rename_i h
+    simp only [reduceCtorEq, false_iff]
+    intro h'
+    apply h
+    rcases h' with h' | h'
+    · simp [h']
+    · simp [h']
+
+/-- **the box, as a whole mask.**  On a non-empty grid the lat/lon box `[x0, x1] × [y0, y1]`
+(corners after the remapping in order: `X0 ≤ X1`, `y0 ≤ y1`) selects exactly `inBox`. -/
+theorem regionIndices_box (lat lon : List α) (x0 y0 x1 y1 : α) (hne : lon ≠ [])
+    (hx : boxCorner lon x0 ≤ boxCorner lon x1) (hy : y0 ≤ y1) :
+    regionIndices lat lon (boxRegion x0 y0 x1 y1)
+      = some ((List.zip lon lat).map (inBox (boxCorner lon x0) y0 (boxCorner lon x1) y1)) := by
+  have he : lon.isEmpty = false := by
+    cases lon with
+    | nil => exact absurd rfl hne
+    | cons a l => rfl
+  have hlen : (boxRegion x0 y0 x1 y1).length % 2 = 0 := by simp [boxRegion]
+  unfold regionIndices
+  rw [he, hlen]
+  simp only [Bool.false_or, bne_self_eq_false, Bool.false_eq_true, if_false]
+  congr 1
+  apply List.map_congr_left
+  intro t _
+  unfold boxCorner at hx ⊢
+  unfold remapRegion
+  cases hp : lonNonneg lon
+  · simp only [hp, Bool.false_eq_true, if_false] at hx ⊢
+    exact containsPoint_box x0 y0 x1 y1 t hx hy
+  · simp only [hp, if_true] at hx ⊢
+    rw [pairUp_box_map]
+    exact containsPoint_box _ y0 _ y1 t hx hy
+
+/-- **specification.**  Node `i` is selected by the box iff `X0 ≤ lon_i ≤ X1` and
+`y0 < lat_i ≤ y1` (closed in longitude, the lower latitude bound excluded — the inclusiveness
+of the crossing test the source delegates to) -/
+theorem regionIndices_box_spec (lat lon : List α) (x0 y0 x1 y1 : α) (m : List Bool)
+    (hl : lat.length = lon.length)
+    (hx : boxCorner lon x0 ≤ boxCorner lon x1) (hy : y0 ≤ y1)
+    (h : regionIndices lat lon (boxRegion x0 y0 x1 y1) = some m) (i : Nat) (hi : i < lon.length) :
+    m.getD i false = true ↔
+      (boxCorner lon x0 ≤ lon.getD i 0 ∧ lon.getD i 0 ≤ boxCorner lon x1)
+      ∧ (y0 < lat.getD i 0 ∧ lat.getD i 0 ≤ y1) := by
+  have hne : lon ≠ [] := by
+    intro h0; rw [h0] at hi; exact absurd hi (by simp)
+  rw [regionIndices_box lat lon x0 y0 x1 y1 hne hx hy] at h
+  simp only [Option.some.injEq] at h
+  subst h
+  have hi' : i < lat.length := hl ▸ hi
+  rw [getD_lt _ _ _ (by simp [hi, hi']), getD_lt _ _ _ hi,
+    getD_lt _ _ _ hi', List.getElem_map, List.getElem_zip, inBox_iff]
+
+/-- a box without a negative corner, or any box on a grid with a negative longitude, is not
+remapped: the inequalities are those of the corners as given -/
+theorem boxCorner_of_nonneg (lon : List α) (x : α) (h : 0 ≤ x) : boxCorner lon x = x := by
+  unfold boxCorner remapLon
+  split <;> simp [not_lt.mpr h]
+
+theorem boxCorner_of_neg_lon (lon : List α) (x : α) (h : ∃ l ∈ lon, l < 0) :
+    boxCorner lon x = x := by
+  obtain ⟨l, hl, hneg⟩ := h
+  have : lonNonneg lon = false := by
+    unfold lonNonneg
+    rw [Bool.eq_false_iff]
+    intro hall
+    have := List.all_eq_true.mp hall l hl
+    simp only [ge_iff_le, decide_eq_true_eq] at this
+    exact absurd hneg (not_lt.mpr this)
+  simp [boxCorner, this]
+
+/-- **monotone in the box.**  Every node selected by a box is selected by every box containing it
+(both on the same grid, corners compared after the remapping) -/
+theorem regionIndices_box_mono (lat lon : List α) (x0 y0 x1 y1 x0' y0' x1' y1' : α)
+    (m m' : List Bool) (hl : lat.length = lon.length)
+    (hx : boxCorner lon x0 ≤ boxCorner lon x1) (hy : y0 ≤ y1)
+    (h0 : boxCorner lon x0' ≤ boxCorner lon x0) (h1 : boxCorner lon x1 ≤ boxCorner lon x1')
+    (h2 : y0' ≤ y0) (h3 : y1 ≤ y1')
+    (h : regionIndices lat lon (boxRegion x0 y0 x1 y1) = some m)
+    (h' : regionIndices lat lon (boxRegion x0' y0' x1' y1') = some m')
+    (i : Nat) (hi : i < lon.length) (hs : m.getD i false = true) : m'.getD i false = true := by
+  have hx' : boxCorner lon x0' ≤ boxCorner lon x1' := le_trans h0 (le_trans hx h1)
+  have hy' : y0' ≤ y1' := le_trans h2 (le_trans hy h3)
+  rw [regionIndices_box_spec lat lon x0 y0 x1 y1 m hl hx hy h i hi] at hs
+  rw [regionIndices_box_spec lat lon x0' y0' x1' y1' m' hl hx' hy' h' i hi]
+  exact ⟨⟨le_trans h0 hs.1.1, le_trans hs.1.2 h1⟩, ⟨lt_of_le_of_lt h2 hs.2.1, le_trans hs.2.2 h3⟩⟩
+
+/-- **a box around all nodes selects every node** -/
+theorem regionIndices_box_all (lat lon : List α) (x0 y0 x1 y1 : α) (m : List Bool)
+    (hl : lat.length = lon.length)
+    (hlon : ∀ l ∈ lon, boxCorner lon x0 ≤ l ∧ l ≤ boxCorner lon x1)
+    (hlat : ∀ l ∈ lat, y0 < l ∧ l ≤ y1)
+    (h : regionIndices lat lon (boxRegion x0 y0 x1 y1) = some m) (i : Nat) (hi : i < lon.length) :
+    m.getD i false = true := by
+  have hi' : i < lat.length := hl ▸ hi
+  have hx : boxCorner lon x0 ≤ boxCorner lon x1 :=
+    le_trans (hlon _ (List.getElem_mem hi)).1 (hlon _ (List.getElem_mem hi)).2
+  have hy : y0 ≤ y1 := le_trans (le_of_lt (hlat _ (List.getElem_mem hi')).1) (hlat _ (List.getElem_mem hi')).2
+  rw [regionIndices_box_spec lat lon x0 y0 x1 y1 m hl hx hy h i hi,
+    getD_lt _ _ _ hi, getD_lt _ _ _ hi']
+  exact ⟨hlon _ (List.getElem_mem hi), hlat _ (List.getElem_mem hi')⟩
+
+/-- **the whole globe.**  On a grid in geographic coordinates (latitudes in `[-90, 90]`, longitudes
+either all in `[0, 360]` or all in `[-180, 180]` with a negative one) the box
+`[-180 or 0, 180 or 360] × (-91, 90]` selects every node.  (A box whose lower edge is the south
+pole latitude itself does *not* select a node at the pole: see `regionIndices_box_spec`.) -/
+theorem regionIndices_globe (lat lon : List α) (m : List Bool) (hl : lat.length = lon.length)
+    (hlat : ∀ l ∈ lat, -90 ≤ l ∧ l ≤ 90)
+    (hlon : (∀ l ∈ lon, 0 ≤ l ∧ l ≤ 360) ∨ ((∀ l ∈ lon, -180 ≤ l ∧ l ≤ 180) ∧ ∃ l ∈ lon, l < 0))
+    (h : regionIndices lat lon
+      (if lonNonneg lon then boxRegion 0 (-91) 360 90 else boxRegion (-180) (-91) 180 90) = some m)
+    (i : Nat) (hi : i < lon.length) : m.getD i false = true := by
+  have hlat' : ∀ l ∈ lat, (-91 : α) < l ∧ l ≤ 90 := fun l hl' =>
+    ⟨lt_of_lt_of_le (by norm_num) (hlat l hl').1, (hlat l hl').2⟩
+  rcases hlon with hpos | ⟨hrange, hneg⟩
+  · have hp : lonNonneg lon = true := by
+      unfold lonNonneg
+      rw [List.all_eq_true]
+      intro l hl'
+      simpa using (hpos l hl').1
+    rw [hp] at h
+    simp only [if_true] at h
+    refine regionIndices_box_all lat lon 0 (-91) 360 90 m hl ?_ hlat' h i hi
+    intro l hl'
+    rw [boxCorner_of_nonneg lon 0 le_rfl, boxCorner_of_nonneg lon 360 (by norm_num)]
+    exact hpos l hl'
+  · have hp : lonNonneg lon = false := by
+      obtain ⟨l, hl', hn⟩ := hneg
+      unfold lonNonneg
+      rw [Bool.eq_false_iff]
+      intro hall
+      have := List.all_eq_true.mp hall l hl'
+      simp only [ge_iff_le, decide_eq_true_eq] at this
+      exact absurd hn (not_lt.mpr this)
+    rw [hp] at h
+    simp only [Bool.false_eq_true, if_false] at h
+    refine regionIndices_box_all lat lon (-180) (-91) 180 90 m hl ?_ hlat' h i hi
+    intro l hl'
+    rw [boxCorner_of_neg_lon lon _ hneg, boxCorner_of_neg_lon lon _ hneg]
+    exact hrange l hl'
+
+/-- `containsPoint_box` (Lemmas) restated here so that it is audited: matplotlib's crossing test on
+the four corners of a box is `inBox` -/
+theorem region_containsPoint_box (x0 y0 x1 y1 : α) (t : α × α) (hx : x0 ≤ x1) (hy : y0 ≤ y1) :
+    containsPoint (pairUp (boxRegion x0 y0 x1 y1)) t
+      = (decide (x0 ≤ t.1) && decide (t.1 ≤ x1) && decide (y0 < t.2) && decide (t.2 ≤ y1)) :=
+  containsPoint_box x0 y0 x1 y1 t hx hy
+
+/-- fewer than three polygon vertices select nothing (matplotlib's short cut) -/
+theorem regionIndices_degenerate (lat lon region : List α) (m : List Bool)
+    (hr : region.length < 6) (h : regionIndices lat lon region = some m) :
+    ∀ b ∈ m, b = false := by
+  unfold regionIndices at h
+  split at h
+  · exact absurd h (by simp)
+  · simp only [Option.some.injEq] at h
+    subst h
+    intro b hb
+    obtain ⟨t, _, rfl⟩ := List.mem_map.mp hb
+    have hlen : ∀ l : List α, (pairUp l).length ≤ l.length / 2 := by
+      intro l
+      induction l using pairUp.induct with
+      | case1 x y t ih => simp only [pairUp, List.length_cons]; omega
+      | case2 l h => 
+        have : pairUp l = [] := by
+          unfold pairUp
+          split
+          · rename_i x y t; exact absurd rfl (h x y t)
+          · rfl
+        simp [this]
+    have h3 : (remapRegion (lonNonneg lon) (pairUp region)).length < 3 := by
+      have := hlen region
+      unfold remapRegion
+      split <;> simp <;> omega
+    simp [containsPoint, h3]
+
+/-! non-vacuity: the docstring's example of `region_indices` (the `SmallTestGrid`, box
+`[0, 11] × [0, 11]`), a boundary-hitting box, a remapped box on a `[0, 360]` grid, the globe -/
+example : regionIndices (α := ℚ) [0, 5, 10, 15, 20, 25] [5/2, 5, 15/2, 10, 25/2, 15]
+    (boxRegion 0 0 11 11) = some [false, true, true, false, false, false] := by decide +kernel
+example : regionIndices (α := ℚ) [0, 5, 10, 15, 20, 25] [5/2, 5, 15/2, 10, 25/2, 15]
+    (boxRegion (5/2) 0 (15/2) 10) = some [false, true, true, false, false, false] := by decide +kernel
+example : regionIndices (α := ℚ) [0, 10, 10] [350, 10, 180] (boxRegion (-20) (-5) (-5) 10)
+    = some [true, false, false] ∧
+    regionIndices (α := ℚ) [0, 10, 10] [350, 10, 180] (boxRegion 0 (-5) 355 10)
+    = some [true, true, true] := by decide +kernel
+example : boxCorner (α := ℚ) [350, 10, 180] (-20) = 340 ∧ boxCorner (α := ℚ) [350, -10] (-20) = -20 := by
+  decide +kernel
+example : regionIndices (α := ℚ) [-90, 0, 90] [-180, 0, 180] (boxRegion (-180) (-91) 180 90)
+    = some [true, true, true] ∧
+    regionIndices (α := ℚ) [-90, 0, 90] [-180, 0, 180] (boxRegion (-180) (-90) 180 90)
+    = some [false, true, true] := by decide +kernel
+example : regionIndices (α := ℚ) [1] [1] [0, 0, 1] = none ∧ regionIndices (α := ℚ) [] [] [0, 0] = none
+    ∧ regionIndices (α := ℚ) [1] [1] [0, 0, 2, 2] = some [false] := by decide +kernel
+/-- monotone: the smaller box selects node 1, so does the larger -/
+example : regionIndices (α := ℚ) [0, 5, 10] [0, 5, 10] (boxRegion 4 4 6 6) = some [false, true, false]
+    ∧ regionIndices (α := ℚ) [0, 5, 10] [0, 5, 10] (boxRegion 0 (-1) 6 10) = some [true, true, false]
+    := by decide +kernel
+
+end RegionIndices
+
+section RegionTie
+open Pyunicorn.Generated
+
+/-- `region_indices`, tie to the source: the reshape into pairs of a copy, the guard
+`self._grid["space"][1].min() >= 0` (row 1 = the longitudes), the masked store into column 0
+(the polygon longitudes), the tested points `(space[1], space[0]) = (lon, lat)`, and the
+delegation to `Path.contains_points` -/
+theorem src_regionShape :
+    StructC12.regReshape = ("np.array(region)", "len(region) // 2, 2")
+    ∧ StructC12.regGuardRow = (StructC12.lonDim, "min") ∧ StructC12.regRemapCol = 0
+    ∧ StructC12.regPointRows = [StructC12.lonDim, StructC12.latDim]
+    ∧ StructC12.regReturn = "path.Path(R).contains_points(P)" := by decide
+
+/-- the value stored for one polygon longitude is `remapLon` (commuted operands accepted) -/
+theorem src_regionRemap {α : Type} [Field α] [LinearOrder α] [IsStrictOrderedRing α] (x : α) :
+    StructC12.regRemap x = remapLon x := by
+  first
+    | rfl
+    | (simp only [StructC12.regRemap, remapLon, add_comm]; done)
+
+/-- the guard evaluated at the minimum of a non-empty longitude sequence is `lonNonneg` -/
+theorem src_regionGuard {α : Type} [Field α] [LinearOrder α] [IsStrictOrderedRing α]
+    (x : α) (l : List α) :
+    StructC12.regGuard (l.foldl min x) = lonNonneg (x :: l) := by
+  have key : ∀ (l : List α) (x : α), (0 ≤ l.foldl min x) ↔ (0 ≤ x ∧ ∀ y ∈ l, 0 ≤ y) := by
+    intro l
+    induction l with
+    | nil => intro x; simp
+    | cons y t ih =>
+      intro x
+      simp only [List.foldl_cons, ih, le_min_iff, List.mem_cons, forall_eq_or_imp, and_assoc]
+  unfold StructC12.regGuard lonNonneg
+  rw [Bool.eq_iff_iff]
+  simp only [ge_iff_le, decide_eq_true_eq, List.all_eq_true, List.mem_cons, forall_eq_or_imp]
+  exact key l x
+
+example : StructC12.regRemap (-20 : ℚ) = 340 ∧ StructC12.regRemap (20 : ℚ) = 20
+    ∧ StructC12.regGuard (0 : ℚ) = true ∧ StructC12.regGuard (-1 : ℚ) = false := by decide +kernel
+
+end RegionTie
 
 end Pyunicorn.Geo
